@@ -27,3 +27,10 @@ def len (ts : List Term) : Nat := (current ts).length
 def bindings (ts : List Term) : List (Str × Term) := (current ts).flatMap (fun t => (t.id :: t.alts).map (fun k => (k, t)))
 
 end Hpv.Onto
+
+namespace Hpv.Onto
+open Hpv.Sim
+/-- `terms` iterator and `get_term_name` -/
+def terms (ts : List Term) : List Term := current ts
+def getTermName (ts : List Term) (k : Str) : Option Str := (getTerm ts k).map (·.name)
+end Hpv.Onto
